@@ -44,4 +44,30 @@ theorem Canon.unit_tn {D : Data} {s : State} (hI : InitFacts D) (hc : Canon D s)
       | some y => rw [h] at this; simp at this
     simp [canonVal, hg, hdn]
 
+/-- every total of a canonical state lies on its reporting grid -/
+theorem Canon.total_onGrid {D : Data} {s : State} (hc : Canon D s) (v : VarId) :
+    OnGrid (reportingPrecision v) (total s v) := by
+  cases v
+  · exact hc.sed.onGrid
+  · exact hc.pn.onGrid
+  · exact hc.dn.onGrid
+  · show OnGrid 3 s.tn.total
+    rw [hc.tn.total, hc.tn.cells]
+    apply sumS_onGrid
+    intro c hcm
+    obtain ⟨x, _, h⟩ := mem_mapC hcm
+    rw [h]; exact (canonVal_onGrid _ _ _ _ _).add (canonVal_onGrid _ _ _ _ _)
+  · show OnGrid 2 s.ic.total
+    rw [hc.ic.total, hc.ic.cells]
+    apply sumS_onGrid
+    intro c hcm
+    obtain ⟨x, _, h⟩ := mem_mapC hcm
+    rw [h]; exact costSum_onGrid _ _ _ _
+  · show OnGrid 2 s.oc.total
+    rw [hc.oc.total, hc.oc.cells]
+    apply sumS_onGrid
+    intro c hcm
+    obtain ⟨x, _, h⟩ := mem_mapC hcm
+    rw [h]; exact costSum_onGrid _ _ _ _
+
 end Crem.Catchment
